@@ -62,7 +62,7 @@ def run(tier, seed, replay):
                 items = line.count("O(") + line.count("N")
                 if len(want) and line == "L[]":
                     out.violation("tagged-empty", "!tagged %s injects nothing although %s carry the tag" % (o["name"], want), dict(common.slim(specs[k], obs[k]), history=hists[k]))
-            if o["op"] == "get" and ".Decorate;" in line or ".Wrap;" in line:
+            if o["op"] == "get" and (".Decorate;" in line or ".Wrap;" in line):
                 dist["decorated"] += 1
     out.coverage.update({
         "evaluations": sum(len(h) for h in hists), "distinct_nontrivial": len(nontrivial), "programs": len(acc),
